@@ -270,7 +270,9 @@ def render_scripts(events, results, tag):
         ptext = f"from nada_dsl import *\nfrom {shared} import *\n\ndef nada_main():\n"
         for _, ls, _ in local:
             ptext += "".join("    " + l + "\n" for l in ls)
-        ptext += "    return [" + ", ".join(f'Output(r{v}, "{name}", r{p})' for v, name, p in spec) + "]\n"
+        # the entry points iterate over whatever `nada_main` returns: a list, a tuple, an iterator, a generator
+        outs_text = "[" + ", ".join(f'Output(r{v}, "{name}", r{p})' for v, name, p in spec) + "]"
+        ptext += "    return " + [outs_text, f"iter({outs_text})", f"(o for o in {outs_text})", f"tuple({outs_text})"][nseg % 4] + "\n"
         files.append((prog + ".py", ptext))
         programs.append((prog + ".py", spec))
         prev_shared = shared
@@ -386,7 +388,7 @@ def expected_lines(events, facts, files, programs):
     texts = dict(files)
     for fn, spec in programs:
         d = dict(named)
-        ret = next((i for i, l in enumerate(texts[fn].split("\n"), 1) if l.strip().startswith("return [")), None)
+        ret = next((i for i, l in enumerate(texts[fn].split("\n"), 1) if l.strip().startswith("return ")), None)
         if ret is not None:
             for _, oname, _ in spec:
                 d[("output", oname)] = (fn, ret)
